@@ -140,8 +140,11 @@ class ExactAlgorithmCplex(ExactAlgorithmBase, PairwiseBasedAlgorithm):
                     new_dataset: Dataset = dataset.sub_problem_from_ids(scc_i_set, keep_empty_rankings=True)
                     rankings: List[Ranking] = self._compute_consensus_rankings_with_optim(new_dataset, scoring_scheme,
                                                                                           False, True)
+                    # the elements of the sub-problem may have been re-typed (str -> int) by the Dataset
+                    # constructor: the consensus must be made of the elements of the initial dataset
+                    elements_by_name = {str(id_elements[id_elem]): id_elements[id_elem] for id_elem in scc_i_set}
                     for bucket in rankings[0]:
-                        ranking.append(bucket)
+                        ranking.append({elements_by_name[str(elem)] for elem in bucket})
             return [Ranking(ranking)]
 
         # else, no more recursive calls to do, single problem to solve
